@@ -123,6 +123,7 @@ fn hands<const N: usize>(run: &mut Run, stratum: u64, ranks: &[HandRank]) -> PRe
     let rows = pos_table::<N>();
     let seed = run.seed;
     let nfact = engine::factorial(N as u64);
+    let twin = run.is_twin();
     let acc = par_tuples::<N, A>(52, true, || A { n: 0, fail: None, sample: None }, |acc, c| {
         let p = pack(c);
         if stratum > 1 && mix2(seed ^ 0xC06, p) % stratum != 0 {
@@ -132,10 +133,20 @@ fn hands<const N: usize>(run: &mut Run, stratum: u64, ranks: &[HandRank]) -> PRe
         let want = ranks[exp as usize];
         let w = words_of_ci(c);
         let wp = engine::apply_perm(&w, &perm_from_index::<N>(mix2(seed ^ 0x06, p) % nfact));
+        let mut wd = w;
+        wd.reverse();
         acc.n += 1;
         let r = guard(|| {
             let mut ok = true;
-            for a in [w, wp] {
+            if N == 5 && !twin {
+                // five-card hands: every one of the 120 slot orders
+                for pi in 0..120u64 {
+                    let a = engine::apply_perm(&w, &perm_from_index::<N>(pi));
+                    let h = Five::from([a[0], a[1], a[2], a[3], a[4]]);
+                    ok &= h.hand_rank() == want && h.hand_rank_validated() == want;
+                }
+            }
+            for a in [w, wd, wp] {
                 match N {
                     5 => {
                         let h = Five::from([a[0], a[1], a[2], a[3], a[4]]);
@@ -154,7 +165,22 @@ fn hands<const N: usize>(run: &mut Run, stratum: u64, ranks: &[HandRank]) -> PRe
             ok
         });
         if r != Ok(true) {
-            let bad = if hand_clause(&w).is_err() { w } else { wp };
+            let mut bad = if hand_clause(&w).is_err() {
+                w
+            } else if hand_clause(&wd).is_err() {
+                wd
+            } else {
+                wp
+            };
+            if N == 5 && hand_clause(&bad).is_ok() {
+                for pi in 0..120u64 {
+                    let a = engine::apply_perm(&w, &perm_from_index::<N>(pi));
+                    if hand_clause(&a).is_err() {
+                        bad = a;
+                        break;
+                    }
+                }
+            }
             match hand_clause(&bad) {
                 Err(m) => acc.fail = Some((bad.to_vec(), m)),
                 Ok(()) => panic!("fast and slow paths disagree on {:?}", bad),
@@ -167,7 +193,7 @@ fn hands<const N: usize>(run: &mut Run, stratum: u64, ranks: &[HandRank]) -> PRe
         true
     });
     run.generator(
-        &format!("{}-card subsets{} through hand_rank / hand_rank_validated (canonical + 1 seeded order)", N, if stratum > 1 { format!(" (seeded 1-in-{} stratum)", stratum) } else { String::new() }),
+        &format!("{}-card subsets{} through hand_rank / hand_rank_validated ({})", N, if stratum > 1 { format!(" (seeded 1-in-{} stratum)", stratum) } else { String::new() }, if N == 5 { "all 120 slot orders" } else { "ascending, descending and 1 seeded slot order" }),
         if stratum > 1 { "exhaustive-stratum" } else { "exhaustive" },
         Some(choose(52, N as u64)),
         acc.n,
@@ -257,7 +283,7 @@ pub fn run(run: &mut Run) -> PResult {
     let ranks: Vec<HandRank> = (0..=7462u16).map(HandRank::from).collect();
     hands::<5>(run, 1, &ranks)?;
     hands::<6>(run, 1, &ranks)?;
-    hands::<7>(run, if run.tier == Tier::Thorough { 1 } else { 8 }, &ranks)?;
+    hands::<7>(run, if run.tier == Tier::Thorough { 1 } else if run.is_twin() { 32 } else { 8 }, &ranks)?;
     run.exhaustive = run.tier == Tier::Thorough;
     run.exhaustive_note = "all 65,536 values and all five-/six-card hands always; seven-card hands completely in the thorough tier".into();
     Ok(())
